@@ -586,21 +586,27 @@ func decodeKeyCharByUnicodeRuneStream(s *Stream) ([]byte, error) {
 
 	r := unicodeToRune(s.buf[s.cursor : s.cursor+defaultOffset])
 	if utf16.IsSurrogate(r) {
-		s.cursor += defaultOffset
-		for s.cursor+surrogateOffset >= s.length {
-			if !s.read() {
-				break
+		// the other half of a surrogate pair is a second \uXXXX escape directly behind this
+		// one; the cursor moves only when the pair is complete (a lone surrogate stands for
+		// U+FFFD and whatever follows it is read as usual)
+		available := func(n int64) bool {
+			for s.cursor+n >= s.length {
+				if !s.read() {
+					return false
+				}
+			}
+			return true
+		}
+		next := s.cursor + defaultOffset
+		if s.buf[next] == '\\' && available(defaultOffset+1) && s.buf[next+1] == 'u' && available(defaultOffset+surrogateOffset-1) {
+			r2 := unicodeToRune(s.buf[next+2 : next+surrogateOffset])
+			if pair := utf16.DecodeRune(r, r2); pair != unicode.ReplacementChar {
+				s.cursor = next + surrogateOffset - 1
+				return []byte(string(pair)), nil
 			}
 		}
-		if s.cursor+surrogateOffset >= s.length || s.buf[s.cursor] != '\\' || s.buf[s.cursor+1] != 'u' {
-			s.cursor += defaultOffset - 1
-			return []byte(string(unicode.ReplacementChar)), nil
-		}
-		r2 := unicodeToRune(s.buf[s.cursor+defaultOffset+2 : s.cursor+surrogateOffset])
-		if r := utf16.DecodeRune(r, r2); r != unicode.ReplacementChar {
-			s.cursor += defaultOffset - 1
-			return []byte(string(r)), nil
-		}
+		s.cursor += defaultOffset - 1
+		return []byte(string(unicode.ReplacementChar)), nil
 	}
 	s.cursor += defaultOffset - 1
 	return []byte(string(r)), nil
